@@ -1,13 +1,16 @@
 """Property id -> check class; engines; properties not (yet) claimed."""
-from . import e1, e2, e3, e7
+from . import e1, e2, e3, e5, e7
 
 PROPS = {}
 PROPS.update(e1.PROPS)
 PROPS.update(e3.PROPS)
 PROPS.update(e2.PROPS)
 PROPS.update(e7.PROPS)
+PROPS.update(e5.PROPS)
 
 ENGINES = [
+    {"name": "E5-piece-length", "path": "vh/e5.py", "serves_properties": ["C12"],
+     "kind_free_text": "TLC model checking of PieceLength (normaliser branches vs Valid/Norm, Auto) + TLC trace validation (TracePieceLength.tla) of recorded calls through function / library / CLI / config"},
     {"name": "E7-filesystem-effects", "path": "vh/e7.py", "serves_properties": ["C17", "C18"],
      "kind_free_text": "TLC model checking of EditFs / FsPolicy over the abstract filesystem FsModel; fault injection at every logged operation; TLC trace validation (TraceFs.tla) of operation logs"},
     {"name": "E2-writepath-edit", "path": "vh/e2.py", "serves_properties": ["C06", "C07"],
